@@ -1,0 +1,146 @@
+// Copyright 2025 Anapaya Systems
+//
+// Licensed under the Apache License, Version 2.0 (the "License");
+// you may not use this file except in compliance with the License.
+// You may obtain a copy of the License at
+//
+//   http://www.apache.org/licenses/LICENSE-2.0
+//
+// Unless required by applicable law or agreed to in writing, software
+// distributed under the License is distributed on an "AS IS" BASIS,
+// WITHOUT WARRANTIES OR CONDITIONS OF ANY KIND, either express or implied.
+// See the License for the specific language governing permissions and
+// limitations under the License.
+
+//! Verification hooks (cargo feature `verif-hooks`, off by default).
+//!
+//! Builds a real [`PathUnawareUdpScionSocket`] on top of an in-memory underlay: packets queued
+//! for reception are handed to the socket's receive loop one by one, everything the socket sends
+//! is recorded. The SCMP handlers are the real ones ([`ScmpErrorHandler`] as `ScionStack::bind`
+//! installs it, optionally preceded by [`DefaultEchoHandler`]).
+
+#![allow(missing_docs, clippy::pedantic)]
+
+use std::{
+    collections::VecDeque,
+    sync::{Arc, Mutex},
+};
+
+use async_trait::async_trait;
+use sciparse::{
+    address::ip_socket_addr::ScionSocketIpAddr,
+    core::view::View,
+    dataplane_path::view::ScionDpPathViewRef,
+    packet::view::ScionRawPacketView,
+    payload::scmp::model::ScmpErrorMessage,
+};
+
+use super::{
+    BoundUnderlaySocket, PathUnawareUdpScionSocket, ScionSocketReceiveError, ScionSocketSendError,
+    UnderlaySocket,
+    scmp_handler::{DefaultEchoHandler, ScmpErrorHandler, ScmpErrorReceiver, ScmpHandler},
+};
+use crate::internal::Subscribers;
+
+/// In-memory underlay: a receive queue and a log of sent packets.
+#[derive(Default)]
+pub struct MemUnderlay {
+    rx: Mutex<VecDeque<Vec<u8>>>,
+    tx: Mutex<Vec<Vec<u8>>>,
+}
+
+impl MemUnderlay {
+    /// Every packet sent so far, in order.
+    pub fn sent(&self) -> Vec<Vec<u8>> {
+        self.tx.lock().unwrap().clone()
+    }
+
+    /// Number of queued packets not yet received.
+    pub fn pending(&self) -> usize {
+        self.rx.lock().unwrap().len()
+    }
+}
+
+struct MemUnderlaySocket(Arc<MemUnderlay>);
+
+#[async_trait]
+impl UnderlaySocket for MemUnderlaySocket {
+    fn try_send(&self, packet: &ScionRawPacketView) -> Result<(), ScionSocketSendError> {
+        self.0.tx.lock().unwrap().push(packet.as_slice().to_vec());
+        Ok(())
+    }
+
+    async fn writeable(&self) {}
+
+    fn try_recv(&self, buf: &mut [u8]) -> Result<usize, ScionSocketReceiveError> {
+        match self.0.rx.lock().unwrap().pop_front() {
+            Some(p) => {
+                buf[..p.len()].copy_from_slice(&p);
+                Ok(p.len())
+            }
+            // the queue is drained: end the receive loop
+            None => {
+                Err(ScionSocketReceiveError::IoError(std::io::Error::from(
+                    std::io::ErrorKind::UnexpectedEof,
+                )))
+            }
+        }
+    }
+
+    async fn readable(&self) {}
+}
+
+/// Records every SCMP error reported to the application side.
+#[derive(Default)]
+pub struct ScmpErrorLog(Mutex<Vec<(ScmpErrorMessage, Vec<u8>)>>);
+
+impl ScmpErrorLog {
+    /// (error, bytes of the path of the packet that carried it), in order of arrival.
+    pub fn reported(&self) -> Vec<(ScmpErrorMessage, Vec<u8>)> {
+        self.0.lock().unwrap().clone()
+    }
+}
+
+impl ScmpErrorReceiver for ScmpErrorLog {
+    fn report_scmp_error<'a>(&self, scmp_error: ScmpErrorMessage, path: ScionDpPathViewRef<'a>) {
+        use sciparse::dataplane_path::view::ScionDpPathViewExt as _;
+        self.0
+            .lock()
+            .unwrap()
+            .push((scmp_error, path.to_owned_view().as_slice().to_vec()));
+    }
+}
+
+/// A UDP socket bound to `local` over an in-memory underlay holding `rx` (each entry must decode
+/// as a SCION packet, as the underlay contract requires).
+pub fn udp_socket_over(
+    local: ScionSocketIpAddr,
+    rx: Vec<Vec<u8>>,
+    with_echo_handler: bool,
+) -> (
+    PathUnawareUdpScionSocket,
+    Arc<MemUnderlay>,
+    Arc<ScmpErrorLog>,
+) {
+    let mem = Arc::new(MemUnderlay {
+        rx: Mutex::new(rx.into()),
+        tx: Mutex::new(Vec::new()),
+    });
+    let log = Arc::new(ScmpErrorLog::default());
+    let receivers: Subscribers<dyn ScmpErrorReceiver> = Subscribers::new();
+    receivers.register(log.clone());
+    let mut handlers: Vec<Box<dyn ScmpHandler>> = Vec::new();
+    if with_echo_handler {
+        handlers.push(Box::new(DefaultEchoHandler::new()));
+    }
+    handlers.push(Box::new(ScmpErrorHandler::new(receivers)));
+    let socket = PathUnawareUdpScionSocket::new(
+        BoundUnderlaySocket {
+            socket: Box::new(MemUnderlaySocket(mem.clone())),
+            local_addr: local,
+            snap_data_plane: None,
+        },
+        handlers,
+    );
+    (socket, mem, log)
+}
